@@ -165,6 +165,9 @@ def server_oracle(case):
         f = dict(p.split("=", 1) for p in raw[fi].split(" ")[1:])
         cls = f["file"].split(":")[0].lower()
         kind = "c13-server-%s-%s" % (cls, f["op"])
+        if cls == "snap":
+            # the same silent fallback to an older snapshot file as KF-C13-snapshot-fallback, reached through the server's start-up
+            kind = "c13-server-snapshot-fallback"
         fails.append((kind, fi, "the server binary starts successfully after `%s` with a different collection: before %s, after %s" % (raw[fi], before, after)))
     return fails
 
@@ -182,8 +185,9 @@ def server_extra(rep, thorough, seed):
         if p.endswith(".rpc"):
             cases.append(corr.read_replay(os.path.join(d, p))[1])
     ids = "1,2,3,4,5,6,7,8"
-    for fault in SERVER_FAULTS * (3 if thorough else 1):
-        ops = ["cfg dim=2 tenants=ta:50,tb:50 cap=%d snap=%d" % (rng.choice([4, 64]), rng.choice([2, 3, 5])), "start"]
+    # every damage on a directory with snapshots (small interval) and on one that was never snapshotted (WAL segments only)
+    for fault, snap in [(f, sn) for f in SERVER_FAULTS * (3 if thorough else 1) for sn in (None, 1000) if sn is None or "snap:" not in f]:
+        ops = ["cfg dim=2 tenants=ta:50,tb:50 cap=%d snap=%d" % (rng.choice([4, 64]), snap or rng.choice([2, 3, 5])), "start"]
         for phase in range(rng.choice([2, 3])):
             for _ in range(rng.randint(3, 7)):
                 t = rng.choice(["ta", "tb"])
